@@ -1,0 +1,508 @@
+//go:build verif
+
+// Contracts for the fvc verification-condition generator in /verif (comment-only file).
+// C07, the request / response helper objects: c.Req() returns *DefaultReq, c.Res() returns *DefaultRes (req.go: 37 methods,
+// res.go: 27 methods); every method forwards to r.ctx.<Method>(...). A helper whose ctx is nil, or refers to a context that
+// is not serving a request (the orphaned original of a copied custom context: its fasthttp field is nil - fixed in Reset,
+// clause helpers-refer-to-this-context, zz_contracts_c05_verif.go), makes the first forwarded call dereference nil and the
+// server process dies. Hence, for EVERY forwarder:
+//   requires bound-helper          the helper exists, its context exists, has an app and is attached to a request
+//                                  (what Req()/Res() - helper-of-this-context - and Reset - c.fasthttp == fctx - give a handler)
+//   requires <callee's requires>   exactly what the forwarded DefaultCtx method requires, read at r.ctx
+//   safety nil                     the loads of r.ctx are nil-dereference obligations (discharged from bound-helper)
+//   atcall on-the-bound-context    the receiver of the forwarded call is r.ctx, and it is live (non-nil, app, fasthttp)
+//   atcall same-arguments          every argument is handed on unchanged (variadic lists: the same slice)
+//   ensures forwards-to-<Method>   the call history contains the call of THAT method and the result is its result
+//                                  (checked on the body; call-history clauses are not assumed by callers)
+//   <frame>                        the frame of the callee (pure / the same modifies list), where the callee has one
+//   ensures <carried clauses>      the C07 facts of the callee restated at r.ctx, so that callers of the view get them
+// The forwarders that had a contract already (C06 view clauses in zz_contracts_c06_verif.go, C10 ones in
+// zz_contracts_c10_verif.go) are extended in place there - 19 blocks; the other 45 are below.
+
+package fiber
+
+//@ props C07
+
+// liveCtx(c): the context can serve accessor calls - it exists, belongs to an app and is attached to a request (Reset).
+// boundHelper(r): the helper object exists and refers to such a context.
+//@ macro liveCtx(c) = c != nil && c.app != nil && c.fasthttp != nil
+//@ macro boundHelper(r) = r != nil && liveCtx(r.ctx)
+
+// ---------------------------------------------------------------------------------------------
+// DefaultCtx methods the helpers forward to that had no contract yet (all short): nil-dereference obligations on,
+// what they hand to fasthttp is pinned (own request / own response, the caller's arguments), the result is named.
+// The fasthttp callees without a dependency contract (FormFile, MultipartForm, SaveMultipartFile, SetBodyStreamWriter,
+// AppendBody, AppendBodyString, BodyWriter) and fmt.Fprintf are external: the generator's standing frame assumption for
+// external callees applies (they write only objects of non-module types) - `pure` below is relative to that, as for Set.
+// ---------------------------------------------------------------------------------------------
+// ClientHelloInfo reads the app only (the recorded ClientHello is app-wide: known finding under C05).
+//@ func (*DefaultCtx).ClientHelloInfo
+//@   safety nil
+//@   pure
+//@   requires context-with-app: c != nil && c.app != nil
+//@   ensures recorded-hello-or-nothing: result == ite(c.app.tlsHandler != nil, c.app.tlsHandler.clientHelloInfo, nil)
+
+//@ func (*DefaultCtx).FormFile
+//@   pure
+//@   safety nil
+//@   requires live-context: liveCtx(c)
+//@   atcall @fasthttp.(*RequestCtx).FormFile: own-request-given-key: arg0 == c.fasthttp && arg1 == old(key)
+//@   ensures what-fasthttp-found: called(@fasthttp.(*RequestCtx).FormFile) && result0 == last(@fasthttp.(*RequestCtx).FormFile_0) && result1 == last(@fasthttp.(*RequestCtx).FormFile_1)
+
+//@ func (*DefaultCtx).MultipartForm
+//@   pure
+//@   safety nil
+//@   requires live-context: liveCtx(c)
+//@   atcall @fasthttp.(*RequestCtx).MultipartForm: own-request: arg0 == c.fasthttp
+//@   ensures what-fasthttp-parsed: called(@fasthttp.(*RequestCtx).MultipartForm) && result0 == last(@fasthttp.(*RequestCtx).MultipartForm_0) && result1 == last(@fasthttp.(*RequestCtx).MultipartForm_1)
+
+//@ func (*DefaultCtx).IsFromLocal
+//@   safety nil
+//@   pure
+//@   requires live-context: liveCtx(c)
+//@   ensures peer-is-loopback: result == ipIsLoopback(remoteIP(c.fasthttp, epoch))
+
+//@ func (*DefaultCtx).XHR
+//@   safety nil
+//@   pure
+//@   requires live-context: liveCtx(c)
+//@   ensures requested-with-xmlhttprequest: result <==> lower(reqHeader(c, HeaderXRequestedWith, epoch)) == "xmlhttprequest"
+
+// SaveFile / SaveFileToStorage do not touch their receiver (it is unnamed): no precondition on the context.
+//@ func (*DefaultCtx).SaveFile
+//@   pure
+//@   atcall @fasthttp.SaveMultipartFile: given-file-given-path: arg0 == old(fileheader) && arg1 == old(path)
+//@   ensures result-of-the-save: called(@fasthttp.SaveMultipartFile) && result == last(@fasthttp.SaveMultipartFile)
+
+// SaveFileToStorage: fileheader.Open() and storage.Set(...) need both to exist (documented domain). What is stored is
+// pinned at the call of Storage.Set. NOT STATED: `result == nil ==> called(Storage.Set) && last(Storage.Set) == nil` - the
+// deferred file.Close() (interface method of mime/multipart, no contract) havocs the heap, and the generator keeps the
+// result of a function with defers in a heap cell (SSA local t0), so the returned value is lost at `rundefers` (engine
+// limitation, see the report); for the same reason the function has no frame.
+//@ func (*DefaultCtx).SaveFileToStorage
+//@   requires file-and-storage-given: fileheader != nil && storage != nil
+//@   atcall Storage.Set: given-storage-given-path-no-expiry: recv == old(storage) && key == old(path) && exp == 0
+//@   ensures stored-unless-open-or-read-failed: called(Storage.Set) || called(@fmt.Errorf)
+
+//@ func (*DefaultCtx).Send
+//@   safety nil
+//@   requires live-context: liveCtx(c)
+//@   modifies outBody, outBodySet
+//@   atcall @fasthttp.(*Response).SetBodyRaw: body-as-given-on-own-response: resp == &c.fasthttp.Response && body == old(body)
+//@   ensures body-set: outBodySet && outBody == cid(str(body))
+//@   ensures never-fails: result == nil
+
+//@ func (*DefaultCtx).SendStreamWriter
+//@   pure
+//@   safety nil
+//@   requires live-context: liveCtx(c)
+//@   atcall @fasthttp.(*Response).SetBodyStreamWriter: writer-as-given-on-own-response: arg0 == &c.fasthttp.Response && arg1 == old(streamWriter)
+//@   ensures never-fails: result == nil
+//@   ensures handed-to-fasthttp: called(@fasthttp.(*Response).SetBodyStreamWriter)
+
+//@ func (*DefaultCtx).Write
+//@   pure
+//@   safety nil
+//@   requires live-context: liveCtx(c)
+//@   atcall @fasthttp.(*Response).AppendBody: bytes-as-given-on-own-response: arg0 == &c.fasthttp.Response && arg1 == old(p)
+//@   ensures all-written-never-fails: result0 == len(p) && result1 == nil
+//@   ensures handed-to-fasthttp: called(@fasthttp.(*Response).AppendBody)
+
+//@ func (*DefaultCtx).WriteString
+//@   pure
+//@   safety nil
+//@   requires live-context: liveCtx(c)
+//@   atcall @fasthttp.(*Response).AppendBodyString: string-as-given-on-own-response: arg0 == &c.fasthttp.Response && arg1 == old(s)
+//@   ensures all-written-never-fails: result0 == len(s) && result1 == nil
+//@   ensures handed-to-fasthttp: called(@fasthttp.(*Response).AppendBodyString)
+
+//@ func (*DefaultCtx).Writef
+//@   pure
+//@   safety nil
+//@   requires live-context: liveCtx(c)
+//@   atcall @fasthttp.(*Response).BodyWriter: writer-of-own-response: arg0 == &c.fasthttp.Response
+//@   atcall @fmt.Fprintf: format-and-operands-as-given-into-the-body-writer: arg0 == last(@fasthttp.(*Response).BodyWriter) && arg1 == old(f) && arg2 == old(a)
+//@   ensures what-fprintf-reports: called(@fmt.Fprintf) && result0 == last(@fmt.Fprintf_0) && result1 == last(@fmt.Fprintf_1)
+
+// ---------------------------------------------------------------------------------------------
+// The forwarders
+// ---------------------------------------------------------------------------------------------
+// ---- DefaultReq (req.go) ------------------------------------------------------------
+//@ func (*DefaultReq).Accepts
+//@   safety nil
+//@   modifies acceptedType.params, acceptedType.spec, acceptedType.quality, acceptedType.specificity, acceptedType.order, heap(MD_string_LJuint8), heap(MV_string_LJuint8), hpSubject
+//@   requires bound-helper: boundHelper(r)
+//@   atcall (*DefaultCtx).Accepts: on-the-bound-context: c == r.ctx && liveCtx(c)
+//@   atcall (*DefaultCtx).Accepts: same-arguments: offers == old(offers)
+//@   ensures forwards-to-Accepts: called((*DefaultCtx).Accepts)
+//@   ensures returns-its-result: result == last((*DefaultCtx).Accepts)
+//@   ensures no-offers-nothing: len(offers) == 0 ==> result == ""
+//@   ensures one-of-the-offers-or-nothing: oneOfOrNothing(result, offers)
+//@ func (*DefaultReq).AcceptsCharsets
+//@   safety nil
+//@   modifies acceptedType.params, acceptedType.spec, acceptedType.quality, acceptedType.specificity, acceptedType.order, heap(MD_string_LJuint8), heap(MV_string_LJuint8), hpSubject
+//@   requires bound-helper: boundHelper(r)
+//@   atcall (*DefaultCtx).AcceptsCharsets: on-the-bound-context: c == r.ctx && liveCtx(c)
+//@   atcall (*DefaultCtx).AcceptsCharsets: same-arguments: offers == old(offers)
+//@   ensures forwards-to-AcceptsCharsets: called((*DefaultCtx).AcceptsCharsets)
+//@   ensures returns-its-result: result == last((*DefaultCtx).AcceptsCharsets)
+//@   ensures no-offers-nothing: len(offers) == 0 ==> result == ""
+//@   ensures one-of-the-offers-or-nothing: oneOfOrNothing(result, offers)
+//@ func (*DefaultReq).AcceptsEncodings
+//@   safety nil
+//@   modifies acceptedType.params, acceptedType.spec, acceptedType.quality, acceptedType.specificity, acceptedType.order, heap(MD_string_LJuint8), heap(MV_string_LJuint8), hpSubject
+//@   requires bound-helper: boundHelper(r)
+//@   atcall (*DefaultCtx).AcceptsEncodings: on-the-bound-context: c == r.ctx && liveCtx(c)
+//@   atcall (*DefaultCtx).AcceptsEncodings: same-arguments: offers == old(offers)
+//@   ensures forwards-to-AcceptsEncodings: called((*DefaultCtx).AcceptsEncodings)
+//@   ensures returns-its-result: result == last((*DefaultCtx).AcceptsEncodings)
+//@   ensures no-offers-nothing: len(offers) == 0 ==> result == ""
+//@   ensures one-of-the-offers-or-nothing: oneOfOrNothing(result, offers)
+//@ func (*DefaultReq).AcceptsLanguages
+//@   safety nil
+//@   modifies acceptedType.params, acceptedType.spec, acceptedType.quality, acceptedType.specificity, acceptedType.order, heap(MD_string_LJuint8), heap(MV_string_LJuint8), hpSubject
+//@   requires bound-helper: boundHelper(r)
+//@   atcall (*DefaultCtx).AcceptsLanguages: on-the-bound-context: c == r.ctx && liveCtx(c)
+//@   atcall (*DefaultCtx).AcceptsLanguages: same-arguments: offers == old(offers)
+//@   ensures forwards-to-AcceptsLanguages: called((*DefaultCtx).AcceptsLanguages)
+//@   ensures returns-its-result: result == last((*DefaultCtx).AcceptsLanguages)
+//@   ensures no-offers-nothing: len(offers) == 0 ==> result == ""
+//@   ensures one-of-the-offers-or-nothing: oneOfOrNothing(result, offers)
+//@ func (*DefaultReq).ClientHelloInfo
+//@   safety nil
+//@   pure
+//@   requires bound-helper: boundHelper(r)
+//@   atcall (*DefaultCtx).ClientHelloInfo: on-the-bound-context: c == r.ctx && liveCtx(c)
+//@   ensures forwards-to-ClientHelloInfo: called((*DefaultCtx).ClientHelloInfo)
+//@   ensures returns-its-result: result == last((*DefaultCtx).ClientHelloInfo)
+//@   ensures recorded-hello-or-nothing: result == ite(r.ctx.app.tlsHandler != nil, r.ctx.app.tlsHandler.clientHelloInfo, nil)
+//@ func (*DefaultReq).FormFile
+//@   safety nil
+//@   pure
+//@   requires bound-helper: boundHelper(r)
+//@   atcall (*DefaultCtx).FormFile: on-the-bound-context: c == r.ctx && liveCtx(c)
+//@   atcall (*DefaultCtx).FormFile: same-arguments: key == old(key)
+//@   ensures forwards-to-FormFile: called((*DefaultCtx).FormFile)
+//@   ensures returns-its-results: result0 == last((*DefaultCtx).FormFile_0) && result1 == last((*DefaultCtx).FormFile_1)
+//@ func (*DefaultReq).Fresh
+//@   safety nil
+//@   requires bound-helper: boundHelper(r)
+//@   atcall (*DefaultCtx).Fresh: on-the-bound-context: c == r.ctx && liveCtx(c)
+//@   ensures forwards-to-Fresh: called((*DefaultCtx).Fresh)
+//@   ensures returns-its-result: result == last((*DefaultCtx).Fresh)
+//@   ensures unconditional-request-is-not-fresh: reqHeader(old(r.ctx), "If-Modified-Since", old(epoch)) == "" && reqHeader(old(r.ctx), "If-None-Match", old(epoch)) == "" ==> !result
+//@ func (*DefaultReq).Is
+//@   safety nil
+//@   pure
+//@   requires bound-helper: boundHelper(r)
+//@   atcall (*DefaultCtx).Is: on-the-bound-context: c == r.ctx && liveCtx(c)
+//@   atcall (*DefaultCtx).Is: same-arguments: extension == old(extension)
+//@   ensures forwards-to-Is: called((*DefaultCtx).Is)
+//@   ensures returns-its-result: result == last((*DefaultCtx).Is)
+//@ func (*DefaultReq).IsFromLocal
+//@   safety nil
+//@   pure
+//@   requires bound-helper: boundHelper(r)
+//@   atcall (*DefaultCtx).IsFromLocal: on-the-bound-context: c == r.ctx && liveCtx(c)
+//@   ensures forwards-to-IsFromLocal: called((*DefaultCtx).IsFromLocal)
+//@   ensures returns-its-result: result == last((*DefaultCtx).IsFromLocal)
+//@   ensures peer-is-loopback: result == ipIsLoopback(remoteIP(r.ctx.fasthttp, epoch))
+//@ func (*DefaultReq).Method
+//@   safety nil
+//@   modifies r.ctx.methodInt
+//@   requires bound-helper: boundHelper(r)
+//@   atcall (*DefaultCtx).Method: on-the-bound-context: c == r.ctx && liveCtx(c)
+//@   atcall (*DefaultCtx).Method: same-arguments: override == old(override)
+//@   ensures forwards-to-Method: called((*DefaultCtx).Method)
+//@   ensures returns-its-result: result == last((*DefaultCtx).Method)
+//@   ensures override-keeps-index-valid: old(methodKnown(r.ctx)) ==> methodKnown(r.ctx)
+//@ func (*DefaultReq).MultipartForm
+//@   safety nil
+//@   pure
+//@   requires bound-helper: boundHelper(r)
+//@   atcall (*DefaultCtx).MultipartForm: on-the-bound-context: c == r.ctx && liveCtx(c)
+//@   ensures forwards-to-MultipartForm: called((*DefaultCtx).MultipartForm)
+//@   ensures returns-its-results: result0 == last((*DefaultCtx).MultipartForm_0) && result1 == last((*DefaultCtx).MultipartForm_1)
+//@ func (*DefaultReq).Path
+//@   safety nil
+//@   modifies r.ctx.pathOriginal, r.ctx.path, r.ctx.detectionPath, r.ctx.treePathHash, elems(r.ctx.path), elems(r.ctx.detectionPath), r.ctx.indexRoute
+//@   requires bound-helper: boundHelper(r)
+//@   requires ctx-wf: len(override) != 0 ==> ctxWF(r.ctx)
+//@   atcall (*DefaultCtx).Path: on-the-bound-context: c == r.ctx && liveCtx(c)
+//@   atcall (*DefaultCtx).Path: same-arguments: override == old(override)
+//@   ensures forwards-to-Path: called((*DefaultCtx).Path)
+//@   ensures returns-its-result: result == last((*DefaultCtx).Path)
+//@ func (*DefaultReq).Range
+//@   safety nil
+//@   requires bound-helper: boundHelper(r)
+//@   requires wf-immutable: wfImmutable(r.ctx)
+//@   requires package-errors-initialised: ErrRangeMalformed != nil && ErrRangeUnsatisfiable != nil
+//@   atcall (*DefaultCtx).Range: on-the-bound-context: c == r.ctx && liveCtx(c)
+//@   atcall (*DefaultCtx).Range: same-arguments: size == old(size)
+//@   ensures forwards-to-Range: called((*DefaultCtx).Range)
+//@   ensures returns-its-results: result0 == last((*DefaultCtx).Range_0) && result1 == last((*DefaultCtx).Range_1)
+//@   ensures ranges-inside-representation: forall(k, 0, len(result0.Ranges), 0 <= result0.Ranges[k].Start && result0.Ranges[k].Start <= result0.Ranges[k].End && result0.Ranges[k].End <= size - 1)
+//@   ensures ok-has-a-range: result1 == nil ==> len(result0.Ranges) >= 1
+//@ func (*DefaultReq).Route
+//@   safety nil
+//@   modifies r.ctx.methodInt
+//@   requires bound-helper: boundHelper(r)
+//@   requires path-original-wf: r.ctx.app.config.Immutable ==> stable(r.ctx.pathOriginal)
+//@   atcall (*DefaultCtx).Route: on-the-bound-context: c == r.ctx && liveCtx(c)
+//@   ensures forwards-to-Route: called((*DefaultCtx).Route)
+//@   ensures returns-its-result: result == last((*DefaultCtx).Route)
+//@   ensures matched-route: old(r.ctx.route) != nil ==> result == old(r.ctx.route)
+//@   ensures fallback-route: old(r.ctx.route) == nil ==> result != nil && len(result.Params) == 0 && !old(allocated(result))
+//@ func (*DefaultReq).SaveFile
+//@   safety nil
+//@   pure
+//@   requires helper-given: r != nil
+//@   atcall (*DefaultCtx).SaveFile: on-the-context-of-this-helper: arg0 == r.ctx
+//@   atcall (*DefaultCtx).SaveFile: same-arguments: fileheader == old(fileheader) && path == old(path)
+//@   ensures forwards-to-SaveFile: called((*DefaultCtx).SaveFile)
+//@   ensures returns-its-result: result == last((*DefaultCtx).SaveFile)
+//@ func (*DefaultReq).SaveFileToStorage
+//@   safety nil
+//@   requires helper-given: r != nil
+//@   requires file-and-storage-given: fileheader != nil && storage != nil
+//@   atcall (*DefaultCtx).SaveFileToStorage: on-the-context-of-this-helper: arg0 == r.ctx
+//@   atcall (*DefaultCtx).SaveFileToStorage: same-arguments: fileheader == old(fileheader) && path == old(path) && storage == old(storage)
+//@   ensures forwards-to-SaveFileToStorage: called((*DefaultCtx).SaveFileToStorage)
+//@   ensures returns-its-result: result == last((*DefaultCtx).SaveFileToStorage)
+//@ func (*DefaultReq).Stale
+//@   safety nil
+//@   requires bound-helper: boundHelper(r)
+//@   atcall (*DefaultCtx).Stale: on-the-bound-context: c == r.ctx && liveCtx(c)
+//@   ensures forwards-to-Stale: called((*DefaultCtx).Stale)
+//@   ensures returns-its-result: result == last((*DefaultCtx).Stale)
+//@ func (*DefaultReq).XHR
+//@   safety nil
+//@   pure
+//@   requires bound-helper: boundHelper(r)
+//@   atcall (*DefaultCtx).XHR: on-the-bound-context: c == r.ctx && liveCtx(c)
+//@   ensures forwards-to-XHR: called((*DefaultCtx).XHR)
+//@   ensures returns-its-result: result == last((*DefaultCtx).XHR)
+//@   ensures requested-with-xmlhttprequest: result <==> lower(reqHeader(r.ctx, HeaderXRequestedWith, epoch)) == "xmlhttprequest"
+
+// ---- DefaultRes (res.go) ------------------------------------------------------------
+//@ func (*DefaultRes).Append
+//@   safety nil
+//@   pure
+//@   requires bound-helper: boundHelper(r)
+//@   atcall (*DefaultCtx).Append: on-the-bound-context: c == r.ctx && liveCtx(c)
+//@   atcall (*DefaultCtx).Append: same-arguments: field == old(field) && values == old(values)
+//@   ensures forwards-to-Append: called((*DefaultCtx).Append)
+//@ func (*DefaultRes).Attachment
+//@   safety nil
+//@   requires bound-helper: boundHelper(r)
+//@   atcall (*DefaultCtx).Attachment: on-the-bound-context: c == r.ctx && liveCtx(c)
+//@   atcall (*DefaultCtx).Attachment: same-arguments: filename == old(filename)
+//@   ensures forwards-to-Attachment: called((*DefaultCtx).Attachment)
+//@ func (*DefaultRes).AutoFormat
+//@   safety nil
+//@   requires bound-helper: boundHelper(r)
+//@   atcall (*DefaultCtx).AutoFormat: on-the-bound-context: c == r.ctx && liveCtx(c)
+//@   atcall (*DefaultCtx).AutoFormat: same-arguments: body == old(body)
+//@   ensures forwards-to-AutoFormat: called((*DefaultCtx).AutoFormat)
+//@   ensures returns-its-result: result == last((*DefaultCtx).AutoFormat)
+//@ func (*DefaultRes).CBOR
+//@   safety nil
+//@   requires bound-helper: boundHelper(r)
+//@   atcall (*DefaultCtx).CBOR: on-the-bound-context: c == r.ctx && liveCtx(c)
+//@   atcall (*DefaultCtx).CBOR: same-arguments: data == old(body) && ctype == old(ctype)
+//@   ensures forwards-to-CBOR: called((*DefaultCtx).CBOR)
+//@   ensures returns-its-result: result == last((*DefaultCtx).CBOR)
+//@ func (*DefaultRes).ClearCookie
+//@   safety nil
+//@   modifies jarHas, jarVal, jarAttr, jarVisits, jarVisitAtNext
+//@   requires bound-helper: boundHelper(r)
+//@   atcall (*DefaultCtx).ClearCookie: on-the-bound-context: c == r.ctx && liveCtx(c)
+//@   atcall (*DefaultCtx).ClearCookie: same-arguments: key == old(key)
+//@   ensures forwards-to-ClearCookie: called((*DefaultCtx).ClearCookie)
+//@   ensures named-cookies-expired: forall(k, 0, len(key), cleanValue(key[k]) ==> jarHas[respH(r.ctx)][key[k]] && attrExpired(jarAttr[respH(r.ctx)][key[k]]))
+//@ func (*DefaultRes).Cookie
+//@   safety nil
+//@   modifies jarHas, jarVal, jarAttr, ckKey, ckVal, ckAttr, jcPath, jcExp, jcPooled
+//@   requires bound-helper: boundHelper(r)
+//@   atcall (*DefaultCtx).Cookie: on-the-bound-context: c == r.ctx && liveCtx(c)
+//@   atcall (*DefaultCtx).Cookie: same-arguments: cookie == old(cookie)
+//@   ensures forwards-to-Cookie: called((*DefaultCtx).Cookie)
+//@   ensures in-response: sendableCookie(cookie) ==> jarHas[respH(r.ctx)][cookie.Name] && jarVal[respH(r.ctx)][cookie.Name] == cookie.Value
+//@   ensures others-kept: forallS(k, k != cookie.Name ==> jarHas[respH(r.ctx)][k] == old(jarHas[respH(r.ctx)][k]) && jarVal[respH(r.ctx)][k] == old(jarVal[respH(r.ctx)][k]) && jarAttr[respH(r.ctx)][k] == old(jarAttr[respH(r.ctx)][k]))
+//@ func (*DefaultRes).Download
+//@   safety nil
+//@   requires bound-helper: boundHelper(r)
+//@   requires wf-immutable: wfImmutable(r.ctx)
+//@   requires store-unlocked: !held(r.ctx.app.sendfilesMutex)
+//@   atcall (*DefaultCtx).Download: on-the-bound-context: c == r.ctx && liveCtx(c)
+//@   atcall (*DefaultCtx).Download: same-arguments: file == old(file) && filename == old(filename)
+//@   ensures forwards-to-Download: called((*DefaultCtx).Download)
+//@   ensures returns-its-result: result == last((*DefaultCtx).Download)
+//@ func (*DefaultRes).Format
+//@   safety nil
+//@   requires bound-helper: boundHelper(r)
+//@   requires media-types-one-line: forall(k, 0, len(handlers), noCRLF(handlers[k].MediaType))
+//@   atcall (*DefaultCtx).Format: on-the-bound-context: c == r.ctx && liveCtx(c)
+//@   atcall (*DefaultCtx).Format: same-arguments: handlers == old(handlers)
+//@   ensures forwards-to-Format: called((*DefaultCtx).Format)
+//@   ensures returns-its-result: result == last((*DefaultCtx).Format)
+//@   ensures no-handlers-error: len(handlers) == 0 ==> result == ErrNoHandlers
+//@ func (*DefaultRes).Get
+//@   props C07 C06
+//@   safety nil
+//@   pure
+//@   requires bound-helper: boundHelper(r)
+//@   requires wf-immutable: wfImmutable(r.ctx)
+//@   atcall (*DefaultCtx).GetRespHeader: on-the-bound-context: c == r.ctx && liveCtx(c)
+//@   atcall (*DefaultCtx).GetRespHeader: same-arguments: key == old(key) && defaultValue == old(defaultValue)
+//@   ensures forwards-to-GetRespHeader: called((*DefaultCtx).GetRespHeader)
+//@   ensures returns-its-result: result == last((*DefaultCtx).GetRespHeader)
+//@   ensures [C06] immutable-stable: r.ctx.app.config.Immutable ==> stable(result) || orDefault(result, defaultValue)
+//@ func (*DefaultRes).JSON
+//@   safety nil
+//@   requires bound-helper: boundHelper(r)
+//@   atcall (*DefaultCtx).JSON: on-the-bound-context: c == r.ctx && liveCtx(c)
+//@   atcall (*DefaultCtx).JSON: same-arguments: data == old(body) && ctype == old(ctype)
+//@   ensures forwards-to-JSON: called((*DefaultCtx).JSON)
+//@   ensures returns-its-result: result == last((*DefaultCtx).JSON)
+//@ func (*DefaultRes).JSONP
+//@   safety nil
+//@   requires bound-helper: boundHelper(r)
+//@   atcall (*DefaultCtx).JSONP: on-the-bound-context: c == r.ctx && liveCtx(c)
+//@   atcall (*DefaultCtx).JSONP: same-arguments: data == old(data) && callback == old(callback)
+//@   ensures forwards-to-JSONP: called((*DefaultCtx).JSONP)
+//@   ensures returns-its-result: result == last((*DefaultCtx).JSONP)
+//@ func (*DefaultRes).Links
+//@   safety nil
+//@   requires bound-helper: boundHelper(r)
+//@   atcall (*DefaultCtx).Links: on-the-bound-context: c == r.ctx && liveCtx(c)
+//@   atcall (*DefaultCtx).Links: same-arguments: link == old(link)
+//@   ensures forwards-to-Links: called((*DefaultCtx).Links)
+//@ func (*DefaultRes).Location
+//@   safety nil
+//@   pure
+//@   requires bound-helper: boundHelper(r)
+//@   atcall (*DefaultCtx).Location: on-the-bound-context: c == r.ctx && liveCtx(c)
+//@   atcall (*DefaultCtx).Location: same-arguments: path == old(path)
+//@   ensures forwards-to-Location: called((*DefaultCtx).Location)
+//@ func (*DefaultRes).Render
+//@   safety nil
+//@   requires bound-helper: boundHelper(r)
+//@   requires wf-immutable: wfImmutable(r.ctx)
+//@   atcall (*DefaultCtx).Render: on-the-bound-context: c == r.ctx && liveCtx(c)
+//@   atcall (*DefaultCtx).Render: same-arguments: name == old(name) && bind == old(bind) && layouts == old(layouts)
+//@   ensures forwards-to-Render: called((*DefaultCtx).Render)
+//@   ensures returns-its-result: result == last((*DefaultCtx).Render)
+//@ func (*DefaultRes).Send
+//@   safety nil
+//@   modifies outBody, outBodySet
+//@   requires bound-helper: boundHelper(r)
+//@   atcall (*DefaultCtx).Send: on-the-bound-context: c == r.ctx && liveCtx(c)
+//@   atcall (*DefaultCtx).Send: same-arguments: body == old(body)
+//@   ensures forwards-to-Send: called((*DefaultCtx).Send)
+//@   ensures returns-its-result: result == last((*DefaultCtx).Send)
+//@   ensures body-set: outBodySet && outBody == cid(str(body))
+//@   ensures never-fails: result == nil
+//@ func (*DefaultRes).SendFile
+//@   safety nil
+//@   requires bound-helper: boundHelper(r)
+//@   requires wf-immutable: wfImmutable(r.ctx)
+//@   requires store-unlocked: !held(r.ctx.app.sendfilesMutex)
+//@   atcall (*DefaultCtx).SendFile: on-the-bound-context: c == r.ctx && liveCtx(c)
+//@   atcall (*DefaultCtx).SendFile: same-arguments: file == old(file) && config == old(config)
+//@   ensures forwards-to-SendFile: called((*DefaultCtx).SendFile)
+//@   ensures returns-its-result: result == last((*DefaultCtx).SendFile)
+//@ func (*DefaultRes).SendStatus
+//@   safety nil
+//@   modifies sentStatus, outStatus, outStatusSet, heap
+//@   requires bound-helper: boundHelper(r)
+//@   atcall (*DefaultCtx).SendStatus: on-the-bound-context: c == r.ctx && liveCtx(c)
+//@   atcall (*DefaultCtx).SendStatus: same-arguments: status == old(status)
+//@   ensures forwards-to-SendStatus: called((*DefaultCtx).SendStatus)
+//@   ensures returns-its-result: result == last((*DefaultCtx).SendStatus)
+//@   ensures status-sent: sentStatus == status
+//@   ensures status-written-to-the-response: outStatusSet && outStatus == status
+//@   ensures never-fails: result == nil
+//@ func (*DefaultRes).SendString
+//@   safety nil
+//@   pure
+//@   requires bound-helper: boundHelper(r)
+//@   atcall (*DefaultCtx).SendString: on-the-bound-context: c == r.ctx && liveCtx(c)
+//@   atcall (*DefaultCtx).SendString: same-arguments: body == old(body)
+//@   ensures forwards-to-SendString: called((*DefaultCtx).SendString)
+//@   ensures returns-its-result: result == last((*DefaultCtx).SendString)
+//@   ensures never-fails: result == nil
+//@ func (*DefaultRes).SendStreamWriter
+//@   safety nil
+//@   pure
+//@   requires bound-helper: boundHelper(r)
+//@   atcall (*DefaultCtx).SendStreamWriter: on-the-bound-context: c == r.ctx && liveCtx(c)
+//@   atcall (*DefaultCtx).SendStreamWriter: same-arguments: streamWriter == old(streamWriter)
+//@   ensures forwards-to-SendStreamWriter: called((*DefaultCtx).SendStreamWriter)
+//@   ensures returns-its-result: result == last((*DefaultCtx).SendStreamWriter)
+//@   ensures never-fails: result == nil
+//@ func (*DefaultRes).Set
+//@   safety nil
+//@   pure
+//@   requires bound-helper: boundHelper(r)
+//@   atcall (*DefaultCtx).Set: on-the-bound-context: c == r.ctx && liveCtx(c)
+//@   atcall (*DefaultCtx).Set: same-arguments: key == old(key) && val == old(val)
+//@   ensures forwards-to-Set: called((*DefaultCtx).Set)
+//@ func (*DefaultRes).Status
+//@   safety nil
+//@   modifies sentStatus, outStatus, outStatusSet
+//@   requires bound-helper: boundHelper(r)
+//@   atcall (*DefaultCtx).Status: on-the-bound-context: c == r.ctx && liveCtx(c)
+//@   atcall (*DefaultCtx).Status: same-arguments: status == old(status)
+//@   ensures forwards-to-Status: called((*DefaultCtx).Status)
+//@   ensures returns-its-result: result == last((*DefaultCtx).Status)
+//@   ensures status-written-to-the-response: outStatusSet && outStatus == status
+//@   ensures returns-the-context-of-this-helper: typeis(result, *DefaultCtx) && as(result, *DefaultCtx) == r.ctx
+//@   ensures status-sent: sentStatus == status
+//@ func (*DefaultRes).Type
+//@   safety nil
+//@   requires bound-helper: boundHelper(r)
+//@   atcall (*DefaultCtx).Type: on-the-bound-context: c == r.ctx && liveCtx(c)
+//@   atcall (*DefaultCtx).Type: same-arguments: extension == old(extension) && charset == old(charset)
+//@   ensures forwards-to-Type: called((*DefaultCtx).Type)
+//@   ensures returns-its-result: result == last((*DefaultCtx).Type)
+//@ func (*DefaultRes).Vary
+//@   safety nil
+//@   pure
+//@   requires bound-helper: boundHelper(r)
+//@   atcall (*DefaultCtx).Vary: on-the-bound-context: c == r.ctx && liveCtx(c)
+//@   atcall (*DefaultCtx).Vary: same-arguments: fields == old(fields)
+//@   ensures forwards-to-Vary: called((*DefaultCtx).Vary)
+//@ func (*DefaultRes).Write
+//@   safety nil
+//@   pure
+//@   requires bound-helper: boundHelper(r)
+//@   atcall (*DefaultCtx).Write: on-the-bound-context: c == r.ctx && liveCtx(c)
+//@   atcall (*DefaultCtx).Write: same-arguments: p == old(p)
+//@   ensures forwards-to-Write: called((*DefaultCtx).Write)
+//@   ensures returns-its-results: result0 == last((*DefaultCtx).Write_0) && result1 == last((*DefaultCtx).Write_1)
+//@   ensures all-written-never-fails: result0 == len(p) && result1 == nil
+//@ func (*DefaultRes).Writef
+//@   safety nil
+//@   pure
+//@   requires bound-helper: boundHelper(r)
+//@   atcall (*DefaultCtx).Writef: on-the-bound-context: c == r.ctx && liveCtx(c)
+//@   atcall (*DefaultCtx).Writef: same-arguments: f == old(f) && a == old(a)
+//@   ensures forwards-to-Writef: called((*DefaultCtx).Writef)
+//@   ensures returns-its-results: result0 == last((*DefaultCtx).Writef_0) && result1 == last((*DefaultCtx).Writef_1)
+//@ func (*DefaultRes).WriteString
+//@   safety nil
+//@   pure
+//@   requires bound-helper: boundHelper(r)
+//@   atcall (*DefaultCtx).WriteString: on-the-bound-context: c == r.ctx && liveCtx(c)
+//@   atcall (*DefaultCtx).WriteString: same-arguments: s == old(s)
+//@   ensures forwards-to-WriteString: called((*DefaultCtx).WriteString)
+//@   ensures returns-its-results: result0 == last((*DefaultCtx).WriteString_0) && result1 == last((*DefaultCtx).WriteString_1)
+//@   ensures all-written-never-fails: result0 == len(s) && result1 == nil
+//@ func (*DefaultRes).XML
+//@   safety nil
+//@   requires bound-helper: boundHelper(r)
+//@   atcall (*DefaultCtx).XML: on-the-bound-context: c == r.ctx && liveCtx(c)
+//@   atcall (*DefaultCtx).XML: same-arguments: data == old(data)
+//@   ensures forwards-to-XML: called((*DefaultCtx).XML)
+//@   ensures returns-its-result: result == last((*DefaultCtx).XML)
